@@ -1,5 +1,4 @@
-import EphVerif.Lemmas.C32
-import EphVerif.Spec.ConfigLayers
+import EphVerif.Lemmas.C32Layers
 
 /-!
 # C32 — configuration layers apply in the documented precedence
@@ -54,41 +53,7 @@ theorem merge_shadow (a : Value) (bfs : Fields) (k k' : String) (ks : List Strin
   rw [combine_nonobj_left s _ hscalar]
   exact lookup_nonobj s hscalar k' ks
 
-/-! ## the layers of one run -/
-
-/-- the environment's direct keys that `std::map` visits before / after `"overrides"`, and its `overrides` mapping -/
-def envDirect (efs : Fields) : Fields := efs.filterKeys fun k => k != "profile" && k != "overrides"
-def envBelow (efs : Fields) : Value := .obj ((envDirect efs).filterKeys fun k => k < "overrides")
-def envAbove (efs : Fields) : Value := .obj ((envDirect efs).filterKeys fun k => "overrides" < k)
-def envMap (efs : Fields) : Value :=
-  match efs.get "overrides" with
-  | some (.obj o) => .obj o
-  | some v => .obj (.cons "overrides" v .nil)
-  | none => .emptyObj
-
-theorem merge_empty_left (fs : Fields) : merge Value.emptyObj (.obj fs) = .obj fs := by
-  unfold Value.emptyObj
-  rw [merge_obj, mergeFields]
-  rfl
-
-theorem collectEnv_eq (efs : Fields) :
-    collectEnv (.obj efs) =
-      mergeObjects (mergeObjects (mergeObjects .emptyObj (envBelow efs)) (envMap efs)) (envAbove efs) := by
-  unfold collectEnv envBelow envAbove envMap envDirect
-  simp only []
-  cases h : efs.get "overrides" with
-  | none => rfl
-  | some v =>
-    cases v <;> rfl
-
-/-- every tree that takes part: the environment's three pieces (highest first), then the profile chain
-(selected profile first, then its ancestors, nearest first) -/
-def layersOf (efs : Fields) (chain : List Value) : List Value :=
-  [envAbove efs, envMap efs, envBelow efs] ++ chain
-
-/-- the merged tree `apply_profile_to_options` reads -/
-def effective (efs : Fields) (chain : List Value) : Value :=
-  mergeObjects (chainMerge chain) (collectEnv (.obj efs))
+/-! ## the layers of one run (`envAbove`, `envMap`, `envBelow`, `layersOf`, `effective`: see `Lemmas/C32Layers.lean`) -/
 
 /-- lookups in the merged tree = first layer (highest precedence first) that defines the path -/
 theorem effective_lookup (efs : Fields) (chain : List Value) (k : String) (ks : List String)
@@ -112,112 +77,6 @@ theorem effective_lookup (efs : Fields) (chain : List Value) (k : String) (ks : 
   simp only [layersOf, List.cons_append, List.nil_append, List.map_cons, firstSome]
   cases lookup (envAbove efs) (k :: ks) <;> cases lookup (envMap efs) (k :: ks) <;>
     cases lookup (envBelow efs) (k :: ks) <;> rfl
-
-/-! ## reading a setting with alternative spellings -/
-
-/-- the first spelling present in the tree -/
-def firstPresent (root : Value) (spellings : List (List String)) : Option Value :=
-  firstSome (spellings.map (lookup root))
-
-theorem firstSome_none {α β} (f : α → Option β) (l : List α) (h : ∀ q ∈ l, f q = none) : firstSome (l.map f) = none := by
-  induction l with
-  | nil => rfl
-  | cons a t ih =>
-    simp only [List.map_cons, firstSome, h a (by simp), pick]
-    exact ih (fun q hq => h q (by simp [hq]))
-
-theorem firstSome_single {α β} [DecidableEq α] (f : α → Option β) (p : α) (l : List α)
-    (hother : ∀ q ∈ l, q ≠ p → f q = none) (hp : p ∈ l) : firstSome (l.map f) = f p := by
-  induction l with
-  | nil => cases hp
-  | cons a t ih =>
-    simp only [List.map_cons, firstSome]
-    by_cases ha : a = p
-    · subst ha
-      cases hfa : f a with
-      | some x => rfl
-      | none =>
-        simp only [pick]
-        by_cases hpt : a ∈ t
-        · rw [ih (fun q hq => hother q (by simp [hq])) hpt, hfa]
-        · apply firstSome_none
-          intro q hq
-          exact hother q (by simp [hq]) (fun h => hpt (h ▸ hq))
-    · rw [hother a (by simp) ha]
-      simp only [pick]
-      rcases List.mem_cons.mp hp with h | h
-      · exact absurd h.symm ha
-      · exact ih (fun q hq => hother q (by simp [hq])) h
-
-/-- decoding of a raw value by the three typed getters -/
-def decString : Option Value → Except Err (Option String)
-  | none => .ok none
-  | some (.str s) => .ok (some s)
-  | some _ => .error .type
-def decInt : Option Value → Except Err (Option Int)
-  | none => .ok none
-  | some (.int i) => .ok (some i)
-  | some _ => .error .type
-def decBool : Option Value → Except Err (Option Bool)
-  | none => .ok none
-  | some (.bool b) => .ok (some b)
-  | some (.str s) =>
-    let l := lowerAscii s
-    if l == "true" || l == "yes" || l == "on" then .ok (some true)
-    else if l == "false" || l == "no" || l == "off" then .ok (some false)
-    else .error .type
-  | some _ => .error .type
-
-theorem getString_eq (root : Value) (p : List String) : getString root p = decString (lookup root p) := by
-  unfold getString decString; cases lookup root p with
-  | none => rfl
-  | some v => cases v <;> rfl
-theorem getInt_eq (root : Value) (p : List String) : getInt root p = decInt (lookup root p) := by
-  unfold getInt decInt; cases lookup root p with
-  | none => rfl
-  | some v => cases v <;> rfl
-theorem getBool_eq (root : Value) (p : List String) : getBool root p = decBool (lookup root p) := by
-  unfold getBool decBool; cases lookup root p with
-  | none => rfl
-  | some v => cases v <;> rfl
-
-/-- `get_*_any` decodes the first spelling that is present -/
-theorem getAny_eq {α} (get : Value → List String → Except Err (Option α)) (dec : Option Value → Except Err (Option α))
-    (hget : ∀ root p, get root p = dec (lookup root p)) (hnone : dec none = .ok none)
-    (hsome : ∀ v, dec (some v) ≠ .ok none) (root : Value) (spellings : List (List String)) :
-    getAny get root spellings = dec (firstPresent root spellings) := by
-  induction spellings with
-  | nil => simp [getAny, firstPresent, firstSome, hnone]
-  | cons p ps ih =>
-    simp only [getAny, firstPresent, List.map_cons, firstSome, hget]
-    cases hl : lookup root p with
-    | none =>
-      simp only [hnone, pick]
-      exact ih
-    | some v =>
-      simp only [pick]
-      cases hd : dec (some v) with
-      | error e => rfl
-      | ok o =>
-        cases o with
-        | none => exact absurd hd (hsome v)
-        | some x => rfl
-
-theorem decString_some (v : Value) : decString (some v) ≠ .ok none := by
-  cases v <;> simp [decString]
-theorem decInt_some (v : Value) : decInt (some v) ≠ .ok none := by
-  cases v <;> simp [decInt]
-theorem decBool_some (v : Value) : decBool (some v) ≠ .ok none := by
-  cases v with
-  | str s =>
-    simp only [decBool]
-    split
-    · simp
-    · split <;> simp
-  | null => simp [decBool]
-  | bool b => simp [decBool]
-  | int i => simp [decBool]
-  | obj o => simp [decBool]
 
 /-! ## `C32.precedence` -/
 
@@ -243,12 +102,6 @@ theorem precedence (efs : Fields) (chain : List Value) (spellings : List (List S
   · intro q hq hne
     rw [hE q hq]
     exact firstSome_none _ _ (fun l hl => hone q hq hne l hl)
-
-theorem bind_ok {ε α β} {x : Except ε α} {f : α → Except ε β} {b : β} (h : x >>= f = .ok b) :
-    ∃ a, x = .ok a ∧ f a = .ok b := by
-  cases x with
-  | error e => simp [bind, Except.bind] at h
-  | ok a => exact ⟨a, rfl, h⟩
 
 /-- what `apply_profile_to_options` does for each of the nine settings -/
 theorem apply_ok (E : Value) (flags o : Options) (h : applyProfile E flags = .ok o) :
@@ -309,6 +162,27 @@ theorem load_ok (doc : Value) (pfs : Fields) (profileFlag : Option String) (flag
   unfold loadConfiguration
   simp [hprofiles, hres, bind, Except.bind, pure, Except.pure]
 
+/-- the same with an environment selected (`--env`), the profile named by `--profile` -/
+theorem load_ok_env (doc : Value) (pfs envs efs : Fields) (profile envName : String) (flags : Options)
+    (hprofiles : lookup doc ["profiles"] = some (.obj pfs))
+    (henvs : lookup doc ["environments"] = some (.obj envs)) (henv : envs.get envName = some (.obj efs))
+    (base : Value) (hres : resolveProfile pfs profile = .ok base) :
+    loadConfiguration doc (some profile) (some envName) flags =
+      applyProfile (mergeObjects base (collectEnv (.obj efs))) flags := by
+  unfold loadConfiguration
+  simp [hprofiles, henvs, henv, hres, bind, Except.bind, pure, Except.pure]
+
+/-- …and with the profile chosen by the environment's own `profile` entry -/
+theorem load_ok_env_profile (doc : Value) (pfs envs efs : Fields) (profile envName : String) (flags : Options)
+    (hprofiles : lookup doc ["profiles"] = some (.obj pfs))
+    (henvs : lookup doc ["environments"] = some (.obj envs)) (henv : envs.get envName = some (.obj efs))
+    (hsel : efs.get "profile" = some (.str profile))
+    (base : Value) (hres : resolveProfile pfs profile = .ok base) :
+    loadConfiguration doc none (some envName) flags =
+      applyProfile (mergeObjects base (collectEnv (.obj efs))) flags := by
+  unfold loadConfiguration
+  simp [hprofiles, henvs, henv, hres, hsel, getString, lookup, bind, Except.bind, pure, Except.pure]
+
 /-! ## `C32.errors` -/
 
 /-- **C32.errors (never loops).**  For every profile mapping and every name, `resolve_profile` terminates: the
@@ -324,22 +198,6 @@ theorem resolve_ok_chain (profiles : Fields) (name : String) (v : Value) (h : re
     ∃ names chain, ChainOf profiles name names chain ∧ v = chainMerge chain ∧ names.Nodup := by
   obtain ⟨names, chain, hc, hv, _, hnd⟩ := resolve_ok profiles _ [] name v h
   exact ⟨names, chain, hc, hv, hnd⟩
-
-theorem chain_members_exist {profiles : Fields} {name : String} {names : List String} {chain : List Value}
-    (h : ChainOf profiles name names chain) : ∀ m x, iterParent profiles m name = some x → (profiles.get x).isSome = true := by
-  induction h with
-  | root name fs hg he =>
-    intro m x hx
-    cases m with
-    | zero => simp only [iterParent, Option.some.injEq] at hx; subst hx; simp [hg]
-    | succ m => simp [iterParent, parentOf, hg, he] at hx
-  | step name parent fs names chain hg he _ ih =>
-    intro m x hx
-    cases m with
-    | zero => simp only [iterParent, Option.some.injEq] at hx; subst hx; simp [hg]
-    | succ m =>
-      simp only [iterParent, parentOf, hg, he] at hx
-      exact ih m x hx
 
 /-- **C32.errors (cycle).**  If following `extends` links from the selected profile ever returns to it, the result
 is a `ConfigError` — for every profile mapping, every cycle length. -/
